@@ -11,7 +11,7 @@
    (correspondence + oracle over generated and mutated corpus trees). *)
 From Coq Require Import String List ZArith.
 From Prov Require Import Str StrProofs Sexp Tables Nsm NsmProofs Values Record RecordProofs World WorldProofs Jtree Json JsonProofs JsonSpec JsonRecProofs JsonContProofs
-  Xml XmlProofs XmlLabel XmlLabelProofs XmlRec XmlRead XmlRecProofs XmlReadProofs IdemProofs GoodProofs JsonValueProofs ShapeProofs KindProofs JsonPrefixProofs JsonStableProofs XmlReadDoc XmlReadDocProofs SingleProofs NormalWorld.
+  Xml XmlProofs XmlLabel XmlLabelProofs XmlRec XmlRead XmlRecProofs XmlReadProofs IdemProofs GoodProofs JsonValueProofs ShapeProofs KindProofs JsonPrefixProofs JsonStableProofs XmlReadDoc XmlReadDocProofs SingleProofs NormalWorld StrictProofs.
 Import ListNotations.
 Open Scope string_scope.
 
@@ -100,6 +100,34 @@ Proof.
   apply (decoded_records_normalE ft t d (dmain d) r H); [left; reflexivity | exact Hr].
 Qed.
 Print Assumptions C11_json_stable_members.
+
+(* ... and that, too, is a theorem about every document the reader builds (StrictProofs.v): the reader collects the formal
+   attributes of an element in a dictionary keyed by name, takes the first member of a several-member membership for
+   the record itself and makes one further membership record per further member, so new_record never gets two
+   arguments that can denote prov:entity, and a call of add_attributes leaves at most one more prov:entity value per
+   such argument (loop_ent_bound).  Every record of every loaded document is in strict normal form ... *)
+Theorem C11_json_decoded_normal : forall ft t d b r,
+  decode_doc ft t = OK d -> In b (dmain d :: map snd (dbundles d)) -> In r (brecs b) -> Normal r.
+Proof. exact decoded_records_normal. Qed.
+Print Assumptions C11_json_decoded_normal.
+
+(* ... and the stability theorem stands without any premise about the values of d: what is left are the plain manager and
+   the boundness of d's names in it (what findings C01-F1..F3 are about) *)
+Theorem C11_json_stable_loaded : forall ft t d l,
+  decode_doc ft t = OK d -> dbundles d = [] ->
+  regd (bns (dmain d)) = map reg_entry l -> plain_regs l ->
+  match dflt (bns (dmain d)) with Some x => uri_ok (ns_uri x) = true | None => True end ->
+  let m := with_default (after l) (dflt (bns (dmain d))) in
+  Forall (names_ok (mkCtx None ft) m) (brecs (dmain d)) ->
+  decode_doc ft (encode_doc d)
+  = OK (mkD (add_all (with_ns (bundle_init None) m) (map renorm (grouped (brecs (dmain d))))) []).
+Proof.
+  intros ft t d l H NB R P D m FO.
+  apply (json_stable_flat ft t d l H NB R P D); [|exact FO].
+  rewrite Forall_forall. intros r Hr.
+  apply (decoded_records_normal ft t d (dmain d) r H); [left; reflexivity | exact Hr].
+Qed.
+Print Assumptions C11_json_stable_loaded.
 
 (* any record meeting the parts is a record the round-trip theorems apply to *)
 Theorem C11_record_ok_of_parts : forall par ft m r,
